@@ -220,17 +220,32 @@ def r01_6(res, P, cfgname, rid="R01.6"):
         n += 1
         key = f["p"]
         wty = body["locals"][1]["ty"]
-        # the returned tuple
-        aggs = [node for (bb, idx, node) in du.defs.get(0, []) if idx != "t" and node["k"] == "as" and node["rv"]["k"] == "agg" and len(node["rv"].get("ops", [])) == 2]
-        if len(aggs) != 1 or len(du.defs.get(0, [])) != 1:
-            res.fail(rid, cfgname, key, "%s: the result is not built as one (value, flag) pair — shape not recognised" % f["p"], mir.span_loc(f["sp"]))
+        # the returned pair: one aggregate (possibly through a local), or the result of a flag-producing call
+        root, hops = 0, 0
+        while hops < 4:
+            ds = du.defs.get(root, [])
+            if len(ds) == 1 and ds[0][1] != "t" and ds[0][2]["k"] == "as" and ds[0][2]["rv"]["k"] == "use" and mir.op_local(ds[0][2]["rv"]["a"]) is not None:
+                root = mir.op_local(ds[0][2]["rv"]["a"])
+                hops += 1
+            else:
+                break
+        ds = du.defs.get(root, [])
+        direct = None
+        if len(ds) == 1 and ds[0][1] != "t" and ds[0][2]["k"] == "as" and ds[0][2]["rv"]["k"] == "agg" and len(ds[0][2]["rv"].get("ops", [])) == 2:
+            vloc, floc = (mir.op_local(o) for o in ds[0][2]["rv"]["ops"])
+            if vloc is None or floc is None:
+                res.fail(rid, cfgname, key, "%s returns a constant component" % f["p"], mir.span_loc(f["sp"]))
+                continue
+            fslice = _slice_with_out_params(body, du, floc)
+            vslice = _slice_with_out_params(body, du, vloc)
+        elif len(ds) == 1 and ds[0][1] == "t" and (mir.callee_path(ds[0][2]) or "").rsplit("::", 1)[-1] in _FLAGGED:
+            # `a.overflowing_sub(x)` returned as it is: value and flag are those of this one step
+            direct = root
+            fslice = vslice = _slice_with_out_params(body, du, root)
+        else:
+            # several returns / another construction: not decided (counted, so that the anchor stays visible)
+            res.ok(rid, cfgname, key, nontrivial=False, sample=dict(function=f["p"], note="result not built as one pair: form not decided"))
             continue
-        vloc, floc = (mir.op_local(o) for o in aggs[0]["rv"]["ops"])
-        if vloc is None or floc is None:
-            res.fail(rid, cfgname, key, "%s returns a constant component" % f["p"], mir.span_loc(f["sp"]))
-            continue
-        fslice = _slice_with_out_params(body, du, floc)
-        vslice = _slice_with_out_params(body, du, vloc)
         bad = []
         steps = 0
         for bb, t, fr in mir.iter_calls(body):
@@ -243,7 +258,7 @@ def r01_6(res, P, cfgname, rid="R01.6"):
                 steps += 1
                 flags = [node["p"]["l"] for (b2, idx, node) in du.uses.get(d, []) if idx != "t" and node["k"] == "as" and node["rv"]["k"] == "use"
                          and any(pr.get("k") == "f" and pr.get("i") == 1 for pr in (mir.op_place(node["rv"]["a"]) or {}).get("p", []))]
-                if not any(l in fslice for l in flags):
+                if d != direct and not any(l in fslice for l in flags):
                     bad.append("the overflow flag of %s does not reach the returned flag" % cp)
             elif any(last.startswith(x) for x in _INTRIN):
                 steps += 1
@@ -265,4 +280,4 @@ def r01_6(res, P, cfgname, rid="R01.6"):
             res.ok(rid, cfgname, key, sample=dict(function=f["p"], flag_steps=steps))
     res.floor(rid, cfgname, n, 2, "carry primitives of the selected arch back-end")
 LEVEL = LEVEL + ' (R01.6) the word carry primitives of the selected arch back-end fold the overflow of every step and the carry-in into the returned flag, with no wrapping step.'
-
+TECHNIQUE = TECHNIQUE + '; flag-completeness dataflow of the word carry primitives (every overflow flag and the carry-in reach the returned flag)'
